@@ -16,7 +16,7 @@ RULE = ("tx.process(json, key) events: kind rule, unsigned payload and signed by
         "spellings; distinct = distinct (document, key); non-trivial = signed bytes compared and sender recovered")
 REQUIRED = (["%s-parity%d" % (k, p) for k in txgen.KINDS for p in (0, 1)] + ["legacy-nochain-parity0", "legacy-nochain-parity1",
             "to-absent", "to-null", "to-present", "al-empty", "al-addr-noslots", "al-multi", "al-duplicate", "data-0", "data-1",
-            "data-2..55", "data-56..255", "data-256..65535", "only-one-fee-field-rejected", "missing-field-rejected", "decoy-keys-ignored", "kind-key-null-rejected",
+            "data-2..55", "data-56..255", "data-256..65535", "only-one-fee-field-rejected", "missing-field-rejected", "decoy-keys-ignored", "kind-key-null-rejected", "access-list-without-chain-id-rejected",
             "1559-without-accesslist-key"])
 
 
@@ -142,6 +142,13 @@ def gen(shard, rng, tier):
             c["steps"][0]["lib"]["json"] = doc2
             c["x"]["decoys"] = [k for k, _ in decoys]
             yield from both(c)
+            t = txgen.rand_tx(rng, txgen.LEGACY)
+            t["chainId"] = None
+            toks = txgen.tokens_for(rng, t)
+            toks.pop("chainId", None)
+            toks["accessList"] = rng.choice(["[]", "[]", '[["0x%s",[]]]' % rand_bytes(rng, 20).hex()])
+            yield from both(lib_case("tx", {"op": "tx.process", "json": txgen.render(rng, toks), "secret": "%064x" % 1},
+                                     {"cls": "access-list-without-chain-id", "expect": "reject", "bucket": "access-list-without-chain-id-rejected"}))
             # a kind-deciding key that is present with the value null decides the kind all the same (and is then not a valid value)
             t = txgen.rand_tx(rng, txgen.LEGACY)
             toks = txgen.tokens_for(rng, t)
